@@ -985,6 +985,10 @@ class TermAnalysis(Analysis):
             parts = []
             for op, c in zip(e.ops, e.comparators):
                 r = self.ev(c, st)
+                if isinstance(op, (ast.In, ast.NotIn)):
+                    rec = self._record(r)
+                    if rec and rec["__tuple__"]:
+                        r = ("tuple", tuple(rec[f] for f in rec["__order__"]))          # membership in a NamedTuple is membership in its fields
                 if isinstance(op, (ast.In, ast.NotIn)) and is_const(r) and isinstance(r[1], range) and r[1].step == 1 and _integer_valued(left):
                     # n in range(a, b) for an integer n is a <= n < b
                     rng = ("bool", "and", (("cmp", "<=", const(r[1].start), left), ("cmp", "<", left, const(r[1].stop))))
@@ -1151,6 +1155,17 @@ class TermAnalysis(Analysis):
         return ks[0], ks[-1], d[1][0][1][1] - d[1][0][0][1]
 
     def _call_norm(self, t: Term, e: ast.Call, st: State) -> Term:
+        if t[0] == "call" and t[1] == ("ext", "map") and len(t[2]) == 2 and not t[3]:
+            # map(f, xs) is (f(x) for x in xs)
+            f, xs = t[2]
+            x = ("bound", "λm")
+            elt = None
+            if f[0] == "attr":
+                elt = self._call_norm(("call", ("meth", f[1], f[2]), (x,), ()), e, st)
+            elif f[0] == "global":
+                elt = ("call", ("func" if (f[1] in self.prog.funcs or f[1] in self.prog.classes) else "ext", f[1]), (x,), ())
+            if elt is not None:
+                return ("comp", "gen", elt, (("λm", xs, ()),))
         if t[0] == "call" and t[1][0] == "meth" and is_const(t[1][1]) and isinstance(t[1][1][1], dict):
             t = ("call", ("meth", lit(t[1][1][1]), t[1][2]), t[2], t[3])          # a folded table is a dict term
         if t[0] == "call" and t[1][0] == "meth" and t[1][2] == "get" and 1 <= len(t[2]) <= 2 and not t[3] and len(t[1][1]) > 1 and t[1][1][0] == "dict" \
